@@ -8,7 +8,6 @@ void prop_init()
   ys_set_arena_initial_size(262144);
   g_samples.load();
 }
-extern "C" int __lsan_do_recoverable_leak_check() __attribute__((weak));
 
 static const char* FIXED_RULES =
     "import \"pe\"\nimport \"elf\"\nimport \"math\"\nimport \"hash\"\nimport \"macho\"\n"
@@ -31,7 +30,18 @@ static const char* FIXED_RULES =
     "rule hexz { strings: $h = { 7F 45 4C 46 } condition: $h }\n"
     "rule rex { strings: $r = /ab+c/ condition: #r > 0 and !r[1] >= 3 }\n"
     "rule ext7 { condition: xi == 7 }\n"
-    "rule last_byte { condition: uint8(filesize - 1) == 0x63 }\n";
+    "rule last_byte { condition: uint8(filesize - 1) == 0x63 }\n"
+    "rule fibers { strings: $f = /ab(c{1,50}c){1,50}d/ condition: $f }\n";
+
+// one rule with 70 strings; the last one ("a") reaches the 1,000,000-match limit
+// on the HOT buffer, the others never match
+static std::string many_rule()
+{
+  std::string r = "rule many { strings:";
+  for (int i = 0; i < 69; i++) r += strf(" $s%02d = \"q%02dzq\"", i, i);
+  r += " $hot = \"\\x1f\" condition: any of them }\n";
+  return r;
+}
 
 struct ScanOp
 {
@@ -76,16 +86,24 @@ std::string run_case(Src& s, CaseInfo& ci)
   go.allow_console = true;
   GSet gs = gen_ruleset(s, go);
   for (auto& r : gs.rules) r.ns = "gen";
+  // histories that include the 1 MB match-limit buffer use the fixed rules only:
+  // a generated atom-less regexp on that buffer takes minutes
+  bool hot_case = s.coin(6);
+  if (hot_case)
+    gs.rules.clear();
   std::vector<int> all;
   for (size_t i = 0; i < gs.rules.size(); i++) all.push_back((int) i);
   std::vector<SourceUnit> units = units_for(gs, all);
-  units.insert(units.begin(), SourceUnit{"default", FIXED_RULES, YS_ADD_STRING});
+  units.insert(units.begin(), SourceUnit{"default", std::string(FIXED_RULES) + many_rule(), YS_ADD_STRING});
 
   // buffers of different kinds
   std::vector<bytes> bufs = {g_samples.pe, g_samples.elf, g_samples.macho, "", "xxabcxx", "abc abc abbbc ELF"};
   bufs.push_back(gen_set_buffer(s, gs));
   bufs.push_back(g_samples.pe2.substr(0, 20000));
-  std::vector<std::string> kinds = {"PE", "ELF", "MACHO", "EMPTY", "TEXT", "TEXT", "TEXT", "PE"};
+  std::vector<std::string> kinds = {"PE", "ELF", "MACHO", "EMPTY", "TEXT", "TEXT", "TEXT", "PE", "FIBERS", "HOT"};
+  bufs.push_back("ab" + bytes(3000, 'c'));  // makes rule `fibers` fail with ERROR_TOO_MANY_RE_FIBERS
+  bufs.push_back(bytes(1000100, '\x1f'));      // makes $hot exceed YR_MAX_STRING_MATCHES
+  const size_t NORMAL = bufs.size() - 2;
 
   size_t nops = s.range(3, 9);
   std::vector<ScanOp> ops;
@@ -95,8 +113,20 @@ std::string run_case(Src& s, CaseInfo& ci)
     op.kind = (int) s.weighted({75, 10, 5, 10});
     if (op.kind == 0)
     {
-      op.buf = (int) s.range(0, bufs.size() - 1);
+      switch (s.weighted({hot_case ? 66 : 91, 9, hot_case ? 25 : 0}))
+      {
+      case 0:
+        op.buf = (int) s.range(0, NORMAL - 1);
+        break;
+      case 1:
+        op.buf = (int) NORMAL;  // FIBERS
+        break;
+      default:
+        op.buf = (int) NORMAL + 1;  // HOT (about a second per scan)
+      }
       op.entry = (int) s.weighted({50, 8, 7, 35});
+      if (op.buf >= (int) NORMAL)
+        op.entry = YS_SCAN_MEM;
       int scr = (int) s.weighted({45, 25, 15, 15});
       if (scr == 1 || scr == 2)
       {
@@ -201,14 +231,14 @@ std::string run_case(Src& s, CaseInfo& ci)
                        i, kinds[op.buf].c_str(), bufs[op.buf].size(), got.substr(0, 1500).c_str(), want.substr(0, 1500).c_str());
       nscans++;
       kinds_seen.insert(kinds[op.buf]);
-      if (op.script_action || op.notready)
+      if (op.script_action || op.notready || op.buf >= (int) NORMAL)
         abnormal++;
     }
   }
   ys_scanner_free(sc);  // destroyed after this prefix of the history
   ys_rules_free(R.r);
   R.r = nullptr;
-  if (failure.empty() && __lsan_do_recoverable_leak_check && __lsan_do_recoverable_leak_check())
+  if (failure.empty() && leak_check_now())
     failure = "memory leaked by this scan history (LeakSanitizer)";
   ci.nontrivial = nontrivial;
   for (auto& k : kinds_seen) ci.classes.push_back("scanned-" + k);
